@@ -135,7 +135,7 @@ func (sc *ServerCall) Loop(ops ServerOps) ([]byte, status.Status) {
 			return nil, status.Errorf("harness: handler abandoned by the controller")
 		}
 		switch c.op {
-		case "request":
+		case "request", "request-late":
 			if ops.Request == nil {
 				sc.reps <- reply{data: sc.Req, st: status.OK, note: "entry"}
 				continue
@@ -415,6 +415,8 @@ func (rt *RT) Run(s *Script, method string, p Payloads, cl ClientSide, found fun
 				bad(k, "handler-"+step.Op, "%v", r.st)
 				return
 			}
+		case "request-late":
+			// an error or a stale view, not judged
 		default:
 			if !r.st.OK() {
 				bad(k, "harness", "%v", r.st)
